@@ -42,12 +42,12 @@ class Table:
 
     def ob_matrix_unitary(self, name, np_, mat, **meta):
         self.define(f"m_{name}", "List (List Ex)", lean_matrix(mat))
-        self.ob(name, f"unitaryCheck {np_} m_{name}", **meta)
+        self.ob(name, f"unitaryCheck {np_} m_{name}", sem=f"QV.unitaryCheck_sound {np_} m_{name} {name}", **meta)
 
     def ob_matrix_eq(self, name, np_, a, b, **meta):
         self.define(f"a_{name}", "List (List Ex)", lean_matrix(a))
         self.define(f"b_{name}", "List (List Ex)", lean_matrix(b))
-        self.ob(name, f"matEqCheck {np_} a_{name} b_{name}", **meta)
+        self.ob(name, f"matEqCheck {np_} a_{name} b_{name}", sem=f"QV.matEqCheck_sound {np_} a_{name} b_{name} {name}", **meta)
 
     def ob_product(self, name, np_, n, lhs, rhs, phase=False, **meta):
         """lhs / rhs: lists of (mat, targets, controls, dagger)."""
@@ -57,9 +57,9 @@ class Table:
         self.define(
             f"o_{name}",
             "Ob",
-            f"{{ np := {np_}, n := {n}, mode := {mode},\n  lhs := {l},\n  rhs := {r} }}",
+            f"{{ np := {np_}, n := {n},\n      ls := {l},\n      rs := {r},\n      mode := {mode} }}",
         )
-        self.ob(name, f"Ob.check o_{name}", supported=f"Ob.supported o_{name}", **meta)
+        self.ob(name, f"Ob.check o_{name}", supported=f"Ob.supported o_{name}", sem=f"QV.Ob.check_sound o_{name} {name}", **meta)
 
     # ------------------------------------------------------------------
     def emit(self, extra_imports=()):
@@ -93,12 +93,36 @@ class Table:
             if len(parts) == 3:
                 status[parts[0]] = (parts[1] == "true", parts[2] == "true")
         passed = [n for n, _, _ in self.obs if status.get(n, (False, False))[0]]
-        ob = [f"import QV.Gen.{P}_Defs", "set_option maxRecDepth 100000", f"namespace QV.Gen.{P}", "open QV", ""]
         exprs = {n: e for n, e, _ in self.obs}
+        # kernel obligations are split over several modules so lake checks them in parallel
+        nchunks = max(1, min(14, (len(passed) + 9) // 10))
+        chunks = [passed[i::nchunks] for i in range(nchunks)]
+        for i, chunk in enumerate(chunks):
+            ob = [f"import QV.Gen.{P}_Defs", "set_option maxRecDepth 100000", f"namespace QV.Gen.{P}", "open QV", ""]
+            for n in chunk:
+                ob.append(f"theorem {n} : {exprs[n]} = true := by decide +kernel")
+            ob.append(f"end QV.Gen.{P}\n")
+            leanrun.write_if_changed(GEN / f"{P}_Ob{i}.lean", "\n".join(ob))
+        # remove stale chunk files
+        for old in GEN.glob(f"{P}_Ob[0-9]*.lean"):
+            try:
+                k = int(old.stem.split("_Ob")[1])
+            except ValueError:
+                continue
+            if k >= nchunks:
+                old.unlink()
+        top = [f"import QV.Gen.{P}_Ob{i}" for i in range(nchunks)]
+        top += [f"namespace QV.Gen.{P}", "", "def proved : List String := [" + ", ".join(f'"{n}"' for n in passed) + "]", f"end QV.Gen.{P}\n"]
+        leanrun.write_if_changed(GEN / f"{P}_Ob.lean", "\n".join(top))
+        # semantic corollaries: the Bool checks lifted to statements about ℂ by the
+        # soundness theorems of QV/Proofs/SymSound.lean
+        sems = {n: m.get("sem") for n, _, m in self.obs}
+        sem = [f"import QV.Gen.{P}_Ob", "import QV.Proofs.SymSound", f"namespace QV.Gen.{P}", "open QV", ""]
+        self.sem_names = []
         for n in passed:
-            ob.append(f"theorem {n} : {exprs[n]} = true := by decide +kernel")
-        ob.append("")
-        ob.append("def proved : List String := [" + ", ".join(f'"{n}"' for n in passed) + "]")
-        ob.append(f"end QV.Gen.{P}\n")
-        leanrun.write_if_changed(GEN / f"{P}_Ob.lean", "\n".join(ob))
+            if sems.get(n):
+                sem.append(f"theorem {n}_sem : type_of% ({sems[n]}) := {sems[n]}")
+                self.sem_names.append(f"QV.Gen.{P}.{n}_sem")
+        sem.append(f"end QV.Gen.{P}\n")
+        leanrun.write_if_changed(GEN / f"{P}_Sem.lean", "\n".join(sem))
         return status, passed
